@@ -67,6 +67,12 @@ def make_config(seed, tier="quick"):
         max_boundaries=6000,
         start_offset=round(r.random(), 3),
     )
+    # stalled application callbacks (1 run in 4 of those with a short heartbeat): a hook that comes back only after
+    # the watchdog had time to act - the reader task is held meanwhile, other tasks disconnect / reconnect under it
+    rst = random.Random(seed ^ 0xC1157)
+    if rst.random() < 0.25 and cfg["hb"] < 30:
+        cfg.update(p_hook=0.3, p_hook_stall=0.3, hook_stall_s=rst.choice([1.5, 4.0, 8.0]) * cfg["hb"])
+    cfg["prefill_out"] = random.Random(seed ^ 0xC1151).random() < 0.5  # (matters when eut_out > 1)
     cfg["speak_first"] = speak_first
     if speak_first:
         # scenario family "the acceptor speaks first / Logon attempts that come to nothing": initiator that sends its
@@ -75,6 +81,18 @@ def make_config(seed, tier="quick"):
         cfg.update(prefix="connected", mid_hook_stimuli=True, hb=rs.choice([1, 2]), n_stim=max(cfg["n_stim"], 5),
                    stim_classes=["send", "send", "peer_close", "frame", "app_disconnect"],
                    frame_types=["A", "A", "D", "5"], defects=["none", "none", "seq_high"], p_overlap=0.0)
+    # scenario family "a resend reply in progress when the session ends" (1 run in 10): an established session over a
+    # journal of earlier application messages, ResendRequests of the peer, should_replay() parked or stalled, and
+    # disconnects / closes / reconnects overlapping the reply
+    rr = random.Random(seed ^ 0xC1152)
+    if not speak_first and rr.random() < 0.10:
+        cfg.update(prefix="active", eut_out=rr.choice([4, 6]), prefill_out=True, n_stim=max(cfg["n_stim"], 4),
+                   stim_classes=["frame", "frame", "app_disconnect", "peer_close", "send", "peer_reconnect"],
+                   frame_types=["2", "2", "D", "1"], defects=["none", "none", "none", "seq_high"],
+                   hook_names=["should_replay"], p_hook=0.8, p_overlap=rr.choice([0.3, 1.0]),
+                   profile="reply_overlap")
+        if cfg["hb"] < 30 and rr.random() < 0.5:
+            cfg.update(p_hook_stall=0.3, hook_stall_s=rr.choice([1.5, 4.0]) * cfg["hb"])
     return cfg
 
 
